@@ -87,6 +87,10 @@ func parallelClosures(fn *ssa.Function) []parClosure {
 // dominating condition v < end (or derived by adding a constant / multiplying by a constant an
 // such a counter).
 func rangeCounter(v ssa.Value, cf *ssa.Function, depth int) bool {
+	return rangeCounterP(v, cf.Params[0], depth)
+}
+
+func rangeCounterP(v ssa.Value, startP *ssa.Parameter, depth int) bool {
 	if depth > 4 {
 		return false
 	}
@@ -96,7 +100,7 @@ func rangeCounter(v ssa.Value, cf *ssa.Function, depth int) bool {
 		fromStart, step := false, false
 		for _, e := range x.Edges {
 			e = stripConv(e)
-			if derivedFromParamInt(e, cf.Params[0]) {
+			if derivedFromParamInt(e, startP) || isPhiOfParam(e, startP) {
 				fromStart = true
 				continue
 			}
@@ -111,25 +115,39 @@ func rangeCounter(v ssa.Value, cf *ssa.Function, depth int) bool {
 		switch x.Op {
 		case token.ADD, token.SUB:
 			if _, ok := constInt(x.Y); ok {
-				return rangeCounter(x.X, cf, depth+1)
+				return rangeCounterP(x.X, startP, depth+1)
 			}
 			// counter + offset that is itself loop invariant (captured / parameter-free)
-			if rangeCounter(x.X, cf, depth+1) && loopInvariant(x.Y) {
+			if rangeCounterP(x.X, startP, depth+1) && loopInvariant(x.Y) {
 				return true
 			}
-			if rangeCounter(x.Y, cf, depth+1) && loopInvariant(x.X) && x.Op == token.ADD {
+			if rangeCounterP(x.Y, startP, depth+1) && loopInvariant(x.X) && x.Op == token.ADD {
 				return true
 			}
 		case token.MUL, token.SHL:
 			if k, ok := constInt(x.Y); ok && k > 0 {
-				return rangeCounter(x.X, cf, depth+1)
+				return rangeCounterP(x.X, startP, depth+1)
 			}
 			if k, ok := constInt(x.X); ok && k > 0 && x.Op == token.MUL {
-				return rangeCounter(x.Y, cf, depth+1)
+				return rangeCounterP(x.Y, startP, depth+1)
 			}
 		}
 	}
 	return false
+}
+
+// isPhiOfParam: `start` possibly bumped by a constant on one path (if start == 0 { start++ }).
+func isPhiOfParam(v ssa.Value, prm *ssa.Parameter) bool {
+	ph, ok := stripConv(v).(*ssa.Phi)
+	if !ok {
+		return false
+	}
+	for _, e := range ph.Edges {
+		if !derivedFromParamInt(e, prm) {
+			return false
+		}
+	}
+	return len(ph.Edges) > 0
 }
 
 func derivedFromParamInt(v ssa.Value, prm *ssa.Parameter) bool {
@@ -209,6 +227,10 @@ func writtenAddrs(eff *Effects, in ssa.Instruction) []ssa.Value {
 // hasPartitionIndex: the address chain of addr contains an index that is a [start,end) counter
 // of the closure cf; also reports whether the address is rooted in captured / shared memory.
 func addrShape(addr ssa.Value, cf *ssa.Function) (shared bool, partitioned bool) {
+	return addrShapeP(addr, cf.Params[0])
+}
+
+func addrShapeP(addr ssa.Value, startP *ssa.Parameter) (shared bool, partitioned bool) {
 	seen := map[ssa.Value]bool{}
 	var walk func(v ssa.Value, d int)
 	walk = func(v ssa.Value, d int) {
@@ -226,7 +248,7 @@ func addrShape(addr ssa.Value, cf *ssa.Function) (shared bool, partitioned bool)
 				shared = true
 			}
 		case *ssa.IndexAddr:
-			if rangeCounter(x.Index, cf, 0) {
+			if rangeCounterP(x.Index, startP, 0) {
 				partitioned = true
 			}
 			walk(x.X, d+1)
@@ -234,7 +256,7 @@ func addrShape(addr ssa.Value, cf *ssa.Function) (shared bool, partitioned bool)
 			walk(x.X, d+1)
 		case *ssa.Slice:
 			// a[start:end] / a[lo:hi] with partition-derived bounds
-			if x.Low != nil && (rangeCounter(x.Low, cf, 0) || derivedFromParamInt(x.Low, cf.Params[0])) {
+			if x.Low != nil && (rangeCounterP(x.Low, startP, 0) || startDerived(x.Low, startP, 0)) {
 				partitioned = true
 			}
 			walk(x.X, d+1)
@@ -274,27 +296,121 @@ func addrShape(addr ssa.Value, cf *ssa.Function) (shared bool, partitioned bool)
 
 // partitionedWrites checks the closures handed to parallel helpers inside fn. It returns the
 // number of closures analysed and a description of every shared write that is not indexed by a
-// [start,end) counter.
+// [start,end) counter. A call that forwards the closure's start and end to a callee together
+// with the shared slice is checked inside the callee against the corresponding parameters
+// (assembly kernels taking (a, ..., start, end, ...) are trusted to respect their range).
 func partitionedWrites(p *Program, fn *ssa.Function) (int, []string) {
 	eff := sharedEffects(p)
 	var bad []string
 	cls := parallelClosures(fn)
-	for _, pc := range cls {
-		cf := pc.fn
-		var visit func(f *ssa.Function)
-		visit = func(f *ssa.Function) {
-			for _, b := range f.Blocks {
-				for _, in := range b.Instrs {
-					for _, addr := range writtenAddrs(eff, in) {
-						shared, part := addrShape(addr, cf)
-						if shared && !part {
-							bad = append(bad, fmt.Sprintf("%s writes %s", p.Pos(instrPos(in)), descValue(addr, 0)))
+	var check func(f *ssa.Function, startP, endP *ssa.Parameter, depth int)
+	check = func(f *ssa.Function, startP, endP *ssa.Parameter, depth int) {
+		for _, b := range f.Blocks {
+			for _, in := range b.Instrs {
+				// forwarding call?
+				if ci, ok := in.(ssa.CallInstruction); ok {
+					cc := ci.Common()
+					si, ei := -1, -1
+					for i, a := range cc.Args {
+						if derivedFromParamInt(a, startP) || isPhiOfParam(a, startP) {
+							si = i
+						} else if stripConv(a) == ssa.Value(endP) {
+							ei = i
+						}
+					}
+					if si >= 0 && ei >= 0 {
+						if callee := cc.StaticCallee(); callee != nil {
+							if callee.Blocks == nil {
+								continue // assembly range kernel (trusted)
+							}
+							if depth < 3 && si < len(callee.Params) && ei < len(callee.Params) {
+								check(callee, callee.Params[si], callee.Params[ei], depth+1)
+								continue
+							}
 						}
 					}
 				}
+				for _, addr := range writtenAddrs(eff, in) {
+					shared, part := addrShapeP(addr, startP)
+					if !shared || part {
+						continue
+					}
+					// a write guarded by `start == k` is performed by one partition only
+					if guardedByStartEq(b, startP) {
+						continue
+					}
+					bad = append(bad, fmt.Sprintf("%s writes %s", p.Pos(instrPos(in)), descValue(addr, 0)))
+				}
 			}
 		}
-		visit(cf)
+	}
+	for _, pc := range cls {
+		check(pc.fn, pc.fn.Params[0], pc.fn.Params[1], 0)
 	}
 	return len(cls), bad
+}
+
+// guardedByStartEq: block b is dominated by the true edge of `start == const`.
+func guardedByStartEq(b *ssa.BasicBlock, startP *ssa.Parameter) bool {
+	for _, g := range dominatingGuards(b) {
+		if g.Op == token.EQL && (stripConv(g.X) == ssa.Value(startP) || isPhiOfParam(g.X, startP)) {
+			if _, ok := constInt(g.Y); ok {
+				return true
+			}
+		}
+	}
+	return false
+}
+
+// awaited: every path from the go statement g to a return passes the receive instruction recv.
+func awaited(fn *ssa.Function, g ssa.Instruction, recv ssa.Instruction) bool {
+	gb, rb := g.Block(), recv.Block()
+	if gb == rb {
+		gi, ri := -1, -1
+		for i, in := range gb.Instrs {
+			if in == g {
+				gi = i
+			}
+			if in == recv {
+				ri = i
+			}
+		}
+		return gi >= 0 && ri > gi
+	}
+	// cut the receive block: is a return still reachable from g's block?
+	deleted := map[edge]bool{}
+	for _, s := range rb.Succs {
+		deleted[edge{rb.Index, s.Index}] = true
+	}
+	seen := reach(fn, gb, deleted)
+	for _, b := range fn.Blocks {
+		if !seen[b.Index] || b == rb {
+			continue
+		}
+		if _, ok := b.Instrs[len(b.Instrs)-1].(*ssa.Return); ok {
+			return false
+		}
+	}
+	return true
+}
+
+// startDerived: v is the partition start, possibly bumped on one path and shifted by a
+// loop-invariant offset (a[start+m : end+m]).
+func startDerived(v ssa.Value, startP *ssa.Parameter, depth int) bool {
+	if depth > 4 {
+		return false
+	}
+	v = stripConv(v)
+	if v == ssa.Value(startP) || derivedFromParamInt(v, startP) || isPhiOfParam(v, startP) {
+		return true
+	}
+	if b, ok := v.(*ssa.BinOp); ok && (b.Op == token.ADD || b.Op == token.SUB) {
+		if startDerived(b.X, startP, depth+1) && loopInvariant(b.Y) {
+			return true
+		}
+		if b.Op == token.ADD && startDerived(b.Y, startP, depth+1) && loopInvariant(b.X) {
+			return true
+		}
+	}
+	return false
 }
